@@ -130,6 +130,10 @@ def gen_sub(rng, material, name="sub", small=False):
     sub-problem is by far the most expensive (2-D, fine mesh), so with >= 2 workers the later ones
     finish first: completion order != submission order."""
     tubes = [gen_tube(rng, 2, big=not small)] + [gen_tube(rng, 1) for _ in range(2 if small else 3)]
+    # among the cheap tubes a coarser one always precedes a finer one: a schedule that hands tasks out by size
+    # (largest first) then differs from submission order
+    for k, t in enumerate(tubes[1:]):
+        t["nr"] = 4 + (k % 2)
     return {"name": name, "material": material, "times": TIMES[:3] if small else TIMES, "recv": "disconnect",
             "period": 12.0 if small else 24.0,
             "panels": [{"stiff": "disconnect", "tubes": tubes[:2]}, {"stiff": "disconnect", "tubes": tubes[2:]}]}
